@@ -792,6 +792,8 @@ pub fn can_contain_type<'a>(node: &'a AstNode<'a>, child: &NodeValue) -> bool {
         | NodeValue::SpoileredText
         | NodeValue::Underline
         | NodeValue::Subscript
+        // An Escaped node holds the escaped character as a Text child.
+        | NodeValue::Escaped
         // XXX: this is quite a hack: the EscapedTag _contains_ whatever was
         // possibly going to fall into the spoiler. This should be fixed in
         // inlines.
@@ -820,6 +822,8 @@ pub fn can_contain_type<'a>(node: &'a AstNode<'a>, child: &NodeValue) -> bool {
                 | NodeValue::SpoileredText
                 | NodeValue::Underline
                 | NodeValue::Subscript
+                | NodeValue::Escaped
+                | NodeValue::EscapedTag(..)
         ),
 
         #[cfg(feature = "shortcodes")]
@@ -840,6 +844,8 @@ pub fn can_contain_type<'a>(node: &'a AstNode<'a>, child: &NodeValue) -> bool {
             | NodeValue::SpoileredText
             | NodeValue::Underline
             | NodeValue::Subscript
+            | NodeValue::Escaped
+            | NodeValue::EscapedTag(..)
             | NodeValue::ShortCode(..)
         ),
 
